@@ -1,0 +1,22 @@
+//go:build verif
+// +build verif
+
+package media
+
+// VerifSetPullStreamFactories replaces the list of registered pull-stream factories
+// (the list GetOrCreate walks in order) and returns the previous one.
+func VerifSetPullStreamFactories(fs []PullStreamFactory) []PullStreamFactory {
+	old := psFactories
+	psFactories = append([]PullStreamFactory(nil), fs...)
+	return old
+}
+
+// VerifIdleTask tells whether a schedule posted to the scheduler is the idle-close
+// task GetOrCreate starts for a pulled stream, and for which stream and close status.
+func VerifIdleTask(schedule interface{}) (s *Stream, closedStatus int32, ok bool) {
+	r, ok := schedule.(*runZeroConsumersClose)
+	if !ok {
+		return nil, 0, false
+	}
+	return r.s, r.closedStats, true
+}
